@@ -22,7 +22,7 @@ Proof.
   intros L B. destruct (no_usable i) eqn:U; auto. rewrite (no_usable_live_bad i U L) in B. discriminate.
 Qed.
 
-Definition deviates_MinFlowDecompCycles (i : input) := dev_expand i || negb (search_enters i) || dev_noncons i.
+Definition deviates_MinFlowDecompCycles (i : input) := negb (search_enters i) || dev_noncons i.
 Definition no_extra (i : input) := is_nil (starts i) && is_nil (ends i).
 
 (* OPEN: node mode + additional starts/ends is refused by the constructor, hence [no_extra] *)
@@ -72,10 +72,9 @@ Proof. exists (set_flags ex_graph false false true [true; true]). vm_compute. au
 Definition full_statement (c : cls) : Prop :=
   forall i, (in_domain c i = false -> validate c i = RaiseValueError) /\
             (in_domain c i = true -> has_live i = true -> validate c i = Accept).
-(* the abstraction's own side conditions: the k-loop of the Min* classes runs (it does whenever the caller does not pass a
-   lower bound above |E|), and no constraint of a node-weighted model mixes edges with non-iterable items (the one constraint
-   deviation that is still open) *)
-Definition regular (i : input) : bool := search_enters i && negb (dev_expand i).
+(* the abstraction's own side condition: the k-loop of the Min* classes runs (it does whenever the caller does not pass a
+   lower bound above |E|) *)
+Definition regular (i : input) : bool := search_enters i.
 Definition full_statement_regular (c : cls) : Prop :=
   forall i, regular i = true ->
             (in_domain c i = false -> validate c i = RaiseValueError) /\
@@ -92,19 +91,18 @@ Qed.
 Theorem full_MinErrorFlow : full_statement CMinErrorFlow.
 Proof. intros i. split; [apply validate_complete_MinErrorFlow|intros D _; apply accepts_domain_MinErrorFlow; auto]. Qed.
 
-Ltac reg R := unfold regular in R; apply andb_prop in R as [R1 R2]; apply negb_true_iff in R2.
-Theorem full_regular_kPathCover : full_statement_regular CkPathCover.
-Proof. intros i R. reg R. split; [intros D; apply validate_complete_kPathCover; auto|intros D _; apply accepts_domain_kPathCover; auto]. Qed.
+Theorem full_kPathCover : full_statement CkPathCover.
+Proof. intros i. split; [apply validate_complete_kPathCover|intros D _; apply accepts_domain_kPathCover; auto]. Qed.
+Theorem full_kPathCoverCycles : full_statement CkPathCoverCycles.
+Proof. intros i. split; [apply validate_complete_kPathCoverCycles|intros D _; apply accepts_domain_kPathCoverCycles; auto]. Qed.
 Theorem full_regular_MinPathCover : full_statement_regular CMinPathCover.
 Proof.
-  intros i R. reg R. split; [intros D; apply validate_complete_MinPathCover; auto; unfold deviates_MinPathCover; rewrite R1, R2; reflexivity
+  intros i R. unfold regular in R. split; [intros D; apply validate_complete_MinPathCover; auto; unfold deviates_MinPathCover; rewrite R; reflexivity
                             |intros D _; apply accepts_domain_MinPathCover; auto].
 Qed.
-Theorem full_regular_kPathCoverCycles : full_statement_regular CkPathCoverCycles.
-Proof. intros i R. reg R. split; [intros D; apply validate_complete_kPathCoverCycles; auto|intros D _; apply accepts_domain_kPathCoverCycles; auto]. Qed.
 Theorem full_regular_MinPathCoverCycles : full_statement_regular CMinPathCoverCycles.
 Proof.
-  intros i R. reg R. split; [intros D; apply validate_complete_MinPathCoverCycles; auto; unfold deviates_MinPathCoverCycles; rewrite R1, R2; reflexivity
+  intros i R. unfold regular in R. split; [intros D; apply validate_complete_MinPathCoverCycles; auto; unfold deviates_MinPathCoverCycles; rewrite R; reflexivity
                             |intros D _; apply accepts_domain_MinPathCoverCycles; auto].
 Qed.
 
